@@ -10,8 +10,15 @@ def check(ctx):
     check_assembly(ctx)
     check_band_mask(ctx)
     check_single_fields(ctx)
-    ctx.trust("E3/E5 abstract interpreter and library model", "kernel semantics are C01's")
-    ctx.assume("kernels compute the statistics of the arguments they are given (C01)", "cache hits return what a recomputation would (R5)")
+    # the kernel every dispatch site reaches is the reference estimator (same rule as C01.R3, all 18 kernels, all five statistics)
+    from ..kernels import KernelEval, check_kernel, FAMILIES, MODES, BACKENDS
+    KE = KernelEval(ctx.repo)
+    for backend in BACKENDS:
+        for fam in FAMILIES:
+            for mode in MODES:
+                check_kernel(ctx, KE, fam, mode, backend, rule="R8-kernel-is-reference-estimator")
+    ctx.trust("E3/E5 abstract interpreter and library model", "L1 Goertzel closed form", "L2", "L17 chunk partition")
+    ctx.assume("exact arithmetic", "cache hits return what a recomputation would (R5)")
     return ("Both dispatchers are partially evaluated for 72 abstract configurations (order x mode x backend x window kind, plus fres requests): exactly one "
             "kernel call is reached and it is the kernel of Appendix A.2; its arguments are compared by role with the plan / request (same bin index for L, "
             "D, f; window = DFT-even Kaiser kaiser(L+1, alpha*pi)[:-1] or win(L); omega = 2*pi*f/fs; Q = _build_Q(L, order)). compute() is interpreted "
